@@ -159,7 +159,9 @@ def observe(form, t, rng, hdrs=None, method="GET", ver=11, vary=False):
     ctype = rng.random() < 0.3
     if ctype:
         hl += b"Content-Type: text/x\r\nContent-Length: 0\r\n"
-    req = method.encode() + b" " + target + b" HTTP/1.%d\r\nHost: h\r\n" % (ver - 10) + hl + b"\r\n"
+    # (a Host field is what every HTTP/1.1 client sends; HTTP/1.0 clients and hand-written probes may leave it out)
+    host_sent = not (vary and rng.random() < 0.3)
+    req = method.encode() + b" " + target + b" HTTP/1.%d\r\n" % (ver - 10) + (b"Host: h\r\n" if host_sent else b"") + hl + b"\r\n"
     envs = []
 
     def app(environ, start_response):
@@ -194,6 +196,12 @@ def observe(form, t, rng, hdrs=None, method="GET", ver=11, vary=False):
         if key in env:
             vals = [expect_str.get(tok, -1) for tok in env[key].split(",")]
             obs["vars"].append([n, vals])
+    # every HTTP_* variable stands for a field the client sent
+    sent_keys = {"HTTP_" + names[n].upper().replace("-", "_") for n, v in hdrs} | ({"HTTP_HOST"} if host_sent else set()) | \
+        ({"HTTP_SCRIPT_NAME"} if form == "mounth" else set())
+    obs["invented"] = len([k for k in env if k.startswith("HTTP_") and k not in sent_keys])
+    if host_sent and env.get("HTTP_HOST") != "h":
+        obs["invented"] += 1
     if ctype:
         obs["ct_ok"] = env.get("CONTENT_TYPE") == "text/x" and env.get("CONTENT_LENGTH") == "0" and \
             "HTTP_CONTENT_TYPE" not in env and "HTTP_CONTENT_LENGTH" not in env
@@ -232,7 +240,7 @@ def real_script_name():
                 path_tokens = ["/", "a", "/", "a", "A"] if pi == "/m/xA" else ["x-unexpected"]
                 query = ["a"]
             obs = {"raw_ok": True, "method_ok": True, "proto_ok": True, "script": len(sn), "path": path_tokens, "query": query,
-                   "vars": [], "ct_ok": True}
+                   "vars": [], "ct_ok": True, "invented": 0}
             return {"form": form, "t": t, "hdrs": [], "obs": obs}, {"request": "GET /m/x%41?envdump=1 (real server, " + form + ")",
                                                                    "PATH_INFO": pi, "QUERY_STRING": "envdump=1", "SCRIPT_NAME": sn,
                                                                    "RAW_URI": "/m/x%41?envdump=1", "vars": {}}
